@@ -30,6 +30,10 @@ def _nontrivial(x):
 
 
 def run_unit(unit):
+    if unit.get("kind") == "sequence":
+        from ..runlib import run_descs
+
+        return run_descs(Result(), ID, unit, unit["descs"], MONITORS, _nontrivial)
     return run_split_unit(ID, unit, MONITORS, _nontrivial)
 
 
